@@ -33,7 +33,25 @@ class Session:
         if self.only_unreachable and not getattr(self, '_in_unreachable', False):
             return None
         mode = 'rank' if h.rank else 'concrete'
-        status, model, dt = h.check(list(h.wf) + list(hyps), goal, uf=uf)
+        extra = []
+        r = None
+        for attempt in range(4):
+            status, model, dt = h.check(list(h.wf) + list(hyps) + extra, goal, uf=uf)
+            if r is not None and status != 'sat':
+                break                       # no further counterexample shape: keep the verdict of the last replayed one
+            r = self._judge(h, name, mode, status, model, dt, decode, replay, cls, note)
+            if r['verdict'] != 'inconclusive' or status != 'sat' or replay is None:
+                break
+            # the model did not reproduce natively (unconstructible text or an artefact of the abstraction): ask for a different one
+            b = h.blocking_clause(model)
+            if b is None:
+                break
+            extra.append(b)
+            r['note'] = (r.get('note') or '') + ' [%d counterexample model(s) did not replay; asked for another]' % (attempt + 1)
+        self.results.append(r)
+        return r
+
+    def _judge(self, h, name, mode, status, model, dt, decode, replay, cls, note):
         r = {'ob': name, 'mode': mode, 'solver_s': round(dt, 3), 'kind': 'prove'}
         if note:
             r['note'] = note
@@ -67,7 +85,6 @@ class Session:
                     else:
                         r['verdict'] = 'inconclusive'
                         r['detail'] = 'encoder-mismatch: solver model not reproduced natively: ' + detail
-        self.results.append(r)
         return r
 
     def cover(self, h, name, hyps):
